@@ -45,7 +45,7 @@ structure Actor where
 structure Db where
   resources : List Resource
   members : List Member
-  deriving Repr
+  deriving DecidableEq, Repr
 
 /-! ## translated flags -/
 
@@ -73,7 +73,8 @@ structure FnInfo where
   read : ReadMode
   mutn : Mut
   bulk : Bool          -- the mutation is a query-level delete()/update() on every matching row
-  ownerCheck : Bool    -- check_db_obj_access dominates the first mutation
+  ownerCheck : Bool    -- check_db_obj_access / check_db_obj_owner dominates the first mutation
+  sysCheck : Bool      -- ... and it is check_db_obj_access (also protects is_system rows)
   notFound : Bool      -- raises DBEntityNotFoundError when nothing matches
   reachable : Bool     -- used from mistral/api, mistral/services, std_functions, rest_utils
   known : Bool         -- false: the translator could not classify it
@@ -205,10 +206,10 @@ def target (cs : List Resource) (pick : Nat) : Option Resource :=
   | none => cs.head?
 
 /-- `check_db_obj_access` as translated -/
-def ownerGuard (o : OwnerSpec) (a : Actor) (t : Resource) : Option Outcome :=
+def ownerGuard (o : OwnerSpec) (sys : Bool) (a : Actor) (t : Resource) : Option Outcome :=
   if o.projectMismatch && !(o.adminExempt && a.isAdmin) && t.project != a.project
       && !(o.onlyIfNotPublic && t.scope == .pub) then some .notAllowed
-  else if o.sysFlag && !(o.sysAdminExempt && a.isAdmin) && o.systemModels.contains t.rtype
+  else if sys && o.sysFlag && !(o.sysAdminExempt && a.isAdmin) && o.systemModels.contains t.rtype
       && t.isSystem then some .systemProtected
   else none
 
@@ -247,7 +248,7 @@ def doUpdate (s : SecureSpec) (o : OwnerSpec) (f : ForcingSpec) (fn : FnInfo) (d
   else match target cs args.pick with
     | none => (missing fn, db)
     | some t =>
-      match (if fn.ownerCheck then ownerGuard o a t else none) with
+      match (if fn.ownerCheck then ownerGuard o fn.sysCheck a t else none) with
       | some e => (e, db)
       | none => (.done, { db with resources := db.resources.map fun r => if r == t then updated f a args r else r })
 
@@ -260,7 +261,7 @@ def doDelete (s : SecureSpec) (o : OwnerSpec) (fn : FnInfo) (db : Db) (a : Actor
   else match target cs args.pick with
     | none => (missing fn, db)
     | some t =>
-      match (if fn.ownerCheck then ownerGuard o a t else none) with
+      match (if fn.ownerCheck then ownerGuard o fn.sysCheck a t else none) with
       | some e => (e, db)
       | none => (.done, { db with resources := db.resources.filter fun r => !(r == t) })
 
@@ -287,13 +288,17 @@ def resultIds : Outcome → List Nat
 /-! ## resource members (hand-modelled: `_get_criterion`, `*_resource_member`,
     MembersController.post; the code's AST hash is pinned in Props) -/
 
-/-- MembersController.post: look the workflow up with get_workflow_definition (by id), refuse a
-    non-private one, insert a pending member row owned by the caller -/
-def share (s : SecureSpec) (getWf : FnInfo) (db : Db) (a : Actor) (resId member : Nat) :
-    Outcome × Db :=
+/-- MembersController.post: look the workflow up with get_workflow_definition (by id),
+    check_db_obj_access (owner or admin only), refuse a non-private one, insert a pending member row
+    owned by the caller -/
+def share (s : SecureSpec) (o : OwnerSpec) (getWf : FnInfo) (db : Db) (a : Actor)
+    (resId member : Nat) : Outcome × Db :=
   match (cands s getWf db a { key := .byId resId }).head? with
   | none => (.notFound, db)
   | some r =>
+    match ownerGuard o true a r with
+    | some e => (e, db)
+    | none =>
     if r.scope != .priv then (.unsupported, db)
     else
       let row : Member :=
